@@ -144,6 +144,7 @@ bool hazard_eras<Traits>::guard_ptr<T, MarkedPtr>::acquire_if_equal(const concur
   }
 
   const auto era = era_clock.load(std::memory_order_relaxed);
+  XENIUM_VERIF_POINT("hazard_eras.acquire_if_equal.era_loaded");
   if (he != nullptr && he->guards() == 1) {
     he->set_era(era);
   } else {
